@@ -108,32 +108,37 @@ def approx (f : Frac) (num den : Int) : Bool :=
 
 def isInt : Val → Bool | .int _ => true | _ => false
 
-/-- one counter at one sample.  `prev` is the total reported by the previous sample (`Val.none`
-    at the first sample), `v` the total reported now, `rate` the reported rate. -/
-def counterOk (isBytes : Bool) (tPrev tNow : Int) (prev : Val) (raw : Raw) (v : Val)
-    (rate : Option Frac) : Bool :=
-  -- totals are non-negative
-  (match v with | .int n => decide (0 ≤ n) | _ => true)
-  -- a failure shows as that failure, a successful reading as a number
-  && (match raw with
-      | .fail e => v == .exc e
-      | .ok _ => isInt v
-      | _ => !v.isExc)
-  -- the rate
-  && (match prev, v with
-      | .int l, .int c =>
-        if l > c then rate == none
-        else if tNow ≤ tPrev then true      -- outside the domain (elapsed time must be positive)
-        else match rate with
-          | none => false
-          | some f => approx f ((c - l) * 1000000) ((if isBytes then 1024 else 1) * (tNow - tPrev))
-      | _, _ => rate == none)
+/-- totals are non-negative -/
+def nonnegOk : Val → Bool
+  | .int n => decide (0 ≤ n)
+  | _ => true
 
-def plainOk (raw : Raw) (v : Val) : Bool :=
+/-- a failure shows as that failure, a successful reading as a number (failures are isolated) -/
+def isoOk (raw : Raw) (v : Val) : Bool :=
   match raw with
   | .fail e => v == .exc e
   | .ok _ => isInt v
   | _ => !v.isExc
+
+/-- the rate: absent without two successive totals or on a wrap, else the difference over the
+    elapsed time (bytes in KiB) -/
+def rateOk (isBytes : Bool) (tPrev tNow : Int) (prev v : Val) (rate : Option Frac) : Bool :=
+  match prev, v with
+  | .int l, .int c =>
+    if l > c then rate == none
+    else if tNow ≤ tPrev then true      -- outside the domain (elapsed time must be positive)
+    else match rate with
+      | none => false
+      | some f => approx f ((c - l) * 1000000) ((if isBytes then 1024 else 1) * (tNow - tPrev))
+  | _, _ => rate == none
+
+/-- one counter at one sample.  `prev` is the total reported by the previous sample (`Val.none`
+    at the first sample), `v` the total reported now, `rate` the reported rate. -/
+def counterOk (isBytes : Bool) (tPrev tNow : Int) (prev : Val) (raw : Raw) (v : Val)
+    (rate : Option Frac) : Bool :=
+  nonnegOk v && isoOk raw v && rateOk isBytes tPrev tNow prev v rate
+
+def plainOk (raw : Raw) (v : Val) : Bool := isoOk raw v
 
 def isFail : Raw → Bool | .fail _ => true | _ => false
 def allFail (r : Readings) : Bool :=
